@@ -62,6 +62,15 @@ def build(r):
     if t == 'call':
         from . import vtypes
         return vtypes.build_call(r, build)
+    if t == 'opaque':
+        from . import faults
+        return faults.OpaqueObj(r[1])
+    if t == 'flaky':
+        from . import faults
+        return faults.Flaky(r[1])
+    if t == 'dcinst':
+        from . import dyn
+        return dyn.build_inst(r, build)
     raise ValueError('unknown recipe %r' % (r,))
 
 
